@@ -539,7 +539,7 @@ package keyvalue
 //@   ensures "dir" implies(old(fIsDir(f)), n == 0 && isPathError(err) && errIs(err, hackpadfs.ErrIsDir) && pathOf(err) == f.path)
 //@   ensures "neg" implies(!old(fIsDir(f)) && off < 0, n == 0 && isPathError(err) && pathOf(err) == f.path)
 //@   ensures "data-error" implies(!old(fIsDir(f)) && off >= 0 && old(blob.blobLen(p)) > 0 && old(hDataErr(f)) != nil, n == 0 && isPathError(err) && innerErr(err) == old(hDataErr(f)))
-//@   ensures "empty-write" [C02] implies(!old(fIsDir(f)) && off >= 0 && old(blob.blobLen(p)) == 0, n == 0 && err == nil && implies(old(hDataErr(f)) == nil, sameContent(old(hData(f)))) && world() == old(world()))
+//@   ensures "empty-write" [C02] implies(!old(fIsDir(f)) && off >= 0 && old(blob.blobLen(p)) == 0, n == 0 && err == nil && sameContent(old(hData(f))) && world() == old(world()))
 //@   ensures "count" implies(err == nil && old(canGrowSet(hData(f))), n == old(blob.blobLen(p)))
 //@   ensures "size" implies(err == nil && old(canGrowSet(hData(f))), blob.blobLen(old(hData(f))) == ite(n == 0, old(blob.blobLen(hData(f))), max(old(blob.blobLen(hData(f))), off + n)))
 //@   ensures "written" implies(err == nil && old(canGrowSet(hData(f))), forall(i, 0, n, blob.blobAt(old(hData(f)), off + i) == old(blob.blobAt(p, i))))
